@@ -220,6 +220,9 @@ def check(ctx):
                     "a covariate-free request would be fitted with the covariates an earlier request left in the shared settings",
                     key=lambda k: k.endswith("|model_parameters"))
     ctx.sites("C05.R7", n7, 1, "settings container of get_estimates, restated from C12.R4")
+    # ---- R8 the closed-form vector is published on the rows it was computed for (restated from C01.R2) ----------------------
+    n8 = ctx.borrow("C01", "C01.R2.binding", "C05.R8.same-frames", "the closed-form prediction of one unit would be published on the row of another")
+    ctx.sites("C05.R8", n8, 2, "frame binding obligations restated from C01.R2")
 
     # ---- R6 the fit itself reaches the solver as it was asked for --------------------------------------------------
     # fit_model hands (X, y, tau, weights, lambda, intercept flag) to the third-party solver. Bound against the installed signature, the
